@@ -113,6 +113,15 @@ def gen_case(g: VGen, opts: dict) -> dict:
                                     "MinKeys", "MaxKeys") and "n" in d]
         if counts:
             r.choice(counts)["n"] = r.choice([-1, -2])
+    # two declared keys with one str() form (finding D27: labels are str(key))
+    if r.random() < 0.2:
+        for d in props.find_all(v, g.env):
+            if d.get("k") == "record" and d.get("kind") == "dictAny":
+                ints = [k for k in d["keys"] if k.get("t") == "int"]
+                strs = [k for k in d["keys"] if k.get("t") == "str"]
+                if ints and strs:
+                    strs[0]["s"] = [ord(ch) for ch in str(ints[0]["i"])]
+                    break
     named = None
     if r.random() < 0.4:
         name = "".join(chr(r.choice([97, 65, 95, 32, 47, 35, 0xe9, 48])) for _ in range(r.choice([0, 1, 4])))
